@@ -229,14 +229,16 @@ def check(run):
             jobs["M:thorough_a"] = ex.submit(_mc, "mc/MC_Trajectory_thorough_a.cfg", 3)
             jobs["M:thorough_b"] = ex.submit(_mc, "mc/MC_Trajectory_thorough_b.cfg", 3)
             jobs["M:full3"] = ex.submit(_mc, "mc/MC_Trajectory_full3.cfg", 3)
-        jobs["M:quick"] = ex.submit(_mc, "mc/MC_Trajectory_quick.cfg", 3)
-        jobs["H:abs2"] = ex.submit(_hists, "gen/Gen_TrajectoryHist2.cfg")
-        jobs["H:sim4"] = ex.submit(_hists, "gen/Gen_TrajectoryHistSim.cfg", 3000 if thorough else 120, seed)
-        if thorough:
             jobs["H:abs3"] = ex.submit(_hists, "gen/Gen_TrajectoryHist3.cfg")
-        jobs["M:nl"] = ex.submit(_mc, "mc/MC_Trajectory_nl.cfg", 1)
-        jobs["M:deep_random_walks"] = ex.submit(_deep, 8000 if thorough else 500, seed)
-        jobs["M:harmless"] = ex.submit(_mc, "mc/MC_Trajectory_harmless.cfg", 1)
+        jobs["M:quick"] = ex.submit(_mc, "mc/MC_Trajectory_quick.cfg", 3)
+        jobs["M:nl"] = ex.submit(_mc, "mc/MC_Trajectory_nl.cfg", 2)
+        jobs["M:two_aircraft"] = ex.submit(_mc, "mc/MC_Trajectory_two_thorough.cfg" if thorough
+                                           else "mc/MC_Trajectory_two.cfg", 3 if thorough else 2)
+        jobs["M:harmless"] = ex.submit(_mc, "mc/MC_Trajectory_harmless.cfg" if thorough
+                                       else "mc/MC_Trajectory_harmless_quick.cfg", 1)
+        jobs["H:sim4"] = ex.submit(_hists, "gen/Gen_TrajectoryHistSim.cfg", 3000 if thorough else 120, seed)
+        jobs["H:abs2"] = ex.submit(_hists, "gen/Gen_TrajectoryHist2.cfg")
+        jobs["M:deep_random_walks"] = ex.submit(_deep, 8000 if thorough else 300, seed)
         for a in ATTACKS:
             jobs["A:" + a] = ex.submit(_attack, a)
         done = {k: f.result() for k, f in jobs.items()}
@@ -266,8 +268,8 @@ def check(run):
         h["id"] = i + 1
 
     # ---- phase 2: G, concretisation with CPR.tla and random 2-D scenarios ------------------------
-    n_hshards = 8 if thorough else 2
-    n_rshards = 8 if thorough else 2
+    n_hshards = 8 if thorough else 3
+    n_rshards = 8 if thorough else 1
     n_rand = 8000 if thorough else 400
     gen_jobs = []
     with cf.ThreadPoolExecutor(max_workers=8 if thorough else 4) as ex:
@@ -308,14 +310,15 @@ def check(run):
             samples.append({"family": evs[0]["fam"], "reference": evs[0]["ref"],
                             "reports": [[e["ac"], e["ts"], "surf" if e["kind"] else "air", e["par"], e["L"], e["M"],
                                          e["inter"]["o"], e["inter"].get("err", -1)] for e in evs[1:9]]})
-    # the work directory holds gigabytes in the thorough tier: keep only what a reader may want to look at
-    for res in results:
-        if not res["why"] and os.path.getsize(res["trace"]) > 50 * 2 ** 20:
-            os.remove(res["trace"])
     for s in range(n_hshards):
         hp = os.path.join(run.work, f"hist.{s}.ndjson")
         if os.path.getsize(hp) > 20 * 2 ** 20:
             os.remove(hp)
+    # the work directory holds gigabytes in the thorough tier (replay files are self-contained)
+    for res in results:
+        for f in (res["trace"], res["scen"]):
+            if os.path.getsize(f) > 20 * 2 ** 20:
+                os.remove(f)
     run.cov.update({
         "traces_validated_against_impl": tot["scenarios"],
         "evaluations": tot["reports"],
